@@ -83,5 +83,7 @@ TraceNext ==
 
 Accept == (i = Len(Ev) + 1) => PrintT(<<"ACCEPT", ToJson([id |-> Trace[case].id])>>)
 \* diagnostic run over rejected cases: how far does any interleaving get?
-Progress == PrintT(<<"AT", ToJson([id |-> Trace[case].id, i |-> i])>>)
+\* (one line per case and event index: TLC register `case` holds the highest index printed so far; one worker)
+ASSUME \A k \in 1..Len(Trace) : TLCSet(k, 0)
+Progress == IF i > TLCGet(case) THEN TLCSet(case, i) /\ PrintT(<<"AT", ToJson([id |-> Trace[case].id, i |-> i])>>) ELSE TRUE
 =============================================================================
